@@ -140,7 +140,8 @@ impl<'a> Iterator for RangedBytesIterator<'a> {
         }
         let bytes = self.cursor.read_bytes(self.size).ok()?;
         let index = self.index;
-        self.index += 1;
+        // the last object of a range may sit at index 65535
+        self.index = self.index.wrapping_add(1);
         self.remaining -= 1;
         Some((bytes, index))
     }
